@@ -17,14 +17,26 @@ import time
 import isoref
 
 
-def replay_bin(verif):
-    """Build (incrementally) the replay tool against /repo's working tree."""
-    tgt = os.path.join(verif, 'work', 'replay-target')
+def replay_bin(verif, repo=None):
+    """Build (incrementally) the replay tool against the working tree under check (default /repo)."""
+    repo = os.path.abspath(repo or os.environ.get('VERIF_REPO', '/repo'))
+    src = os.path.join(verif, 'replay')
+    if repo != '/repo':
+        # experiments on a scratch copy: same tool, path dependency pointed at the copy
+        tag = hashlib.sha1(repo.encode()).hexdigest()[:8]
+        src2 = os.path.join(verif, 'work', 'replay-src-' + tag)
+        os.makedirs(os.path.join(src2, 'src'), exist_ok=True)
+        open(os.path.join(src2, 'Cargo.toml'), 'w').write(open(os.path.join(src, 'Cargo.toml')).read().replace('path = "/repo"', 'path = "%s"' % repo))
+        open(os.path.join(src2, 'src', 'main.rs'), 'w').write(open(os.path.join(src, 'src', 'main.rs')).read())
+        src = src2
+        tgt = os.path.join(verif, 'work', 'replay-target-' + tag)
+    else:
+        tgt = os.path.join(verif, 'work', 'replay-target')
     os.makedirs(tgt, exist_ok=True)
     env = dict(os.environ)
     env['CARGO_TARGET_DIR'] = tgt
     env['CARGO_NET_OFFLINE'] = 'true'
-    p = subprocess.run(['cargo', 'build', '--offline', '--quiet'], cwd=os.path.join(verif, 'replay'), env=env,
+    p = subprocess.run(['cargo', 'build', '--offline', '--quiet'], cwd=src, env=env,
                        stdout=subprocess.PIPE, stderr=subprocess.STDOUT, text=True, timeout=600)
     b = os.path.join(tgt, 'debug', 'dmreplay')
     if p.returncode != 0 or not os.path.exists(b):
